@@ -165,6 +165,10 @@ func occ(d, v int) int {
 
 func buildMapping(dvOff bool) mapping.IndexMapping {
 	m := bleve.NewIndexMapping()
+	// a second date layout, used by ONE range of a date facet (the other ranges of the
+	// same facet keep the default parser)
+	_ = m.AddCustomDateTimeParser("c10slash", map[string]interface{}{
+		"type": "flexiblego", "layouts": []interface{}{"2006/01/02 15:04:05.999999999"}})
 	dm := bleve.NewDocumentStaticMapping()
 	kw := func(dv bool) *mapping.FieldMapping {
 		f := bleve.NewTextFieldMapping()
@@ -374,6 +378,20 @@ func (fs FacetSpec) request(e encoding, idx int) *bleve.FacetRequest {
 				}
 				fr.AddDateTimeRange(rangeName(r.ID), lo, hi)
 			} else { // string API (default date time parser)
+				if r.ID == 1 && (r.HasLo || r.HasHi) {
+					// this range names its own parser and writes its bounds in that layout
+					var lo, hi *string
+					if r.HasLo {
+						s := e.date(r.Lo).UTC().Format("2006/01/02 15:04:05.999999999")
+						lo = &s
+					}
+					if r.HasHi {
+						s := e.date(r.Hi).UTC().Format("2006/01/02 15:04:05.999999999")
+						hi = &s
+					}
+					fr.AddDateTimeRangeStringWithParser(rangeName(r.ID), lo, hi, "c10slash")
+					continue
+				}
 				var lo, hi *string
 				if r.HasLo {
 					s := e.date(r.Lo).Format(time.RFC3339Nano)
@@ -613,7 +631,13 @@ func runCaseA(c *core.Ctx, cs *caseA, allFacets []FacetSpec, layout int, forms [
 	checkReq := func(req *bleve.SearchRequest, form int, v Variant, facets []FacetSpec, names []string) (*Failure, error) {
 		res, err := idx.Search(req)
 		if err != nil {
-			return nil, fmt.Errorf("search: %v", err)
+			// a valid request that fails did not report its facets
+			evals++
+			var fs FacetSpec
+			if len(facets) > 0 {
+				fs = facets[0]
+			}
+			return &Failure{Engine: "A", Layout: layout, Docs: cs.Docs, Form: form, Variant: v, Facet: fs, Clause: "search-error", Note: err.Error()}, nil
 		}
 		evals++
 		if int(res.Total) != nMatched {
